@@ -16,6 +16,9 @@ Inductive case :=
 (* one / two objectives: the transcribed code paths of _hv.c (chv1, chv2) and pyhv.py (pyhv1, pyhv2)
    against what the respective implementation returned *)
 | CLow (ref : list Q) (pts : list (list Q)) (obs_c obs_py : option Q)
+(* the routines are pure in the model: [unmodified] = the argument objects (points, reference, population,
+   ref keyword) still hold the same values after the call(s); only written by the harness when false *)
+| CPure (unmodified : bool)
 (* tools.indicator.hypervolume(front, ref=...): returned index (one per back-end) and the
    leave-one-out values the back-end produced *)
 | CInd (w : list Q) (vals : list (list Q)) (refo : option (list Q)) (obs_idx : list nat)
@@ -38,6 +41,7 @@ Definition check (c : case) : bool :=
       | [rx; ry] => opt_eq (chv2 rx ry (map to_pt pts)) oc && opt_eq (pyhv2 rx ry (map to_pt pts)) op
       | _ => false
       end
+  | CPure unmodified => unmodified
   | CPop w vals refo obs => all_eq (pop_hv w vals refo) obs
   | CInd w vals refo oi oc =>
       let P := wobj w vals in
